@@ -150,8 +150,14 @@ func runC10(c *Ctx) {
 
 	// ---- parser side of the table. The grammar functions are structural anchors (rules_ag5.go: told apart by the oneof
 	// wrappers they build, today's names being only the first guess), so renaming them or the parser type keeps the check.
+	// One function may parse both chains (`parseExpr` looking the operator up in a table of node constructors): the And and
+	// the Or role are then the same function, which is looked at once. What the table needs from the parser is unchanged:
+	// every expression an operator function obtains comes from the simple-expression function — or from a node
+	// constructor, which parses nothing and only wraps the operands it is handed (called directly or selected through a
+	// constant package-level table; parserShape.funcTargets / parsesNothing).
 	ps := c.a.PS
 	parserOK := true
+	scanned := map[*ssa.Function]bool{}
 	for _, role := range []struct {
 		label string
 		fn    *ssa.Function
@@ -162,24 +168,46 @@ func runC10(c *Ctx) {
 			parserOK = false
 			continue
 		}
+		if scanned[pf] {
+			continue
+		}
+		scanned[pf] = true
 		allInstrs(pf, func(i ssa.Instruction) {
 			call, ok := i.(*ssa.Call)
-			if !ok {
+			if !ok || call.Call.IsInvoke() {
 				return
 			}
-			f := calleeFunc(&call.Call)
-			if f == nil || c.w.pkgPathOf(f) != pkgParser || f.Signature.Results().Len() != 1 || !typeIs(f.Signature.Results().At(0).Type(), pkgProto, "Query_Expression") {
+			if _, isBuiltin := call.Call.Value.(*ssa.Builtin); isBuiltin {
 				return
 			}
-			switch {
-			case f == ps.ParseSimple || (f == ps.ParseComparison && f != nil):
-			case f == ps.ParseGrouped && f != nil:
-				if pf != ps.ParseSimple {
-					parserOK = false
+			targets := []*ssa.Function{calleeFunc(&call.Call)}
+			if targets[0] == nil {
+				if _, isPtr := call.Type().(*types.Pointer); !isPtr || !typeIs(call.Type(), pkgProto, "Query_Expression") {
+					return
 				}
-			default:
-				parserOK = false
-				c.r.undecided("C10.parens", "parser: "+pn, "operands are parsed by "+f.Name()+", not by the simple-expression function: the parenthesisation table this rule uses no longer describes the parser", c.w.ipos(i))
+				var resolved bool
+				if targets, resolved = ps.funcTargets(call.Call.Value); !resolved {
+					parserOK = false
+					c.r.undecided("C10.parens", "parser: "+pn, "an expression is obtained from a function value the rule cannot resolve (not an entry of a constant package-level table): if it parses operands, the parenthesisation table this rule uses no longer describes the parser", c.w.ipos(i))
+					return
+				}
+			}
+			for _, f := range targets {
+				if f == nil || c.w.pkgPathOf(f) != pkgParser || f.Signature.Results().Len() != 1 || !typeIs(f.Signature.Results().At(0).Type(), pkgProto, "Query_Expression") {
+					continue
+				}
+				switch {
+				case f == ps.ParseSimple || (f == ps.ParseComparison && f != nil):
+				case f == ps.ParseGrouped && f != nil:
+					if pf != ps.ParseSimple {
+						parserOK = false
+					}
+				case ps.parsesNothing(f):
+					// a node constructor: wraps the operands it is given, parses none
+				default:
+					parserOK = false
+					c.r.undecided("C10.parens", "parser: "+pn, "operands are parsed by "+f.Name()+", not by the simple-expression function: the parenthesisation table this rule uses no longer describes the parser", c.w.ipos(i))
+				}
 			}
 		})
 	}
